@@ -24,6 +24,7 @@ WellTyped(pd, cells) ==
        [] pd = "float64" -> Tag(cells[i]) \in {"f", "na"}
        [] pd = "object"  -> Tag(cells[i]) \in {"s", "na", "i"}
        [] pd = "bool"    -> Tag(cells[i]) = "b"
+       [] pd = "Int64"   -> Tag(cells[i]) \in {"i", "na"}
 
 HasNull(cells) == \E i \in 1..Len(cells) : IsNull(cells[i])
 HasDup(cells) == \E i, j \in 1..Len(cells) : i < j /\ DupEq(cells[i], cells[j])
